@@ -294,7 +294,7 @@ theorem int_frac (n : Bool) (m : Nat) (e : Int) (p : Nat) (hN : Normal (.fin n m
   obtain ⟨hb1, hb2, _⟩ := odd_div_pow m (-e).toNat hodd (by omega)
   refine ⟨m / 2 ^ (-e).toNat, ?_, ?_, hb1, hb2⟩
   · have hni : (Num.fin n m e p).isInt = false := by simp [Num.isInt]; omega
-    simp [intImpl, hni, ht]
+    simp [intImpl, hni, ht, Num.isInf]
   · exact setIntP_exact _ 0 (m / 2 ^ (-e).toNat) 0 (by simp [sval_natAbs]) (Or.inl rfl)
 
 end Stdlib
